@@ -1,5 +1,8 @@
 #pragma once
 
+#include <errno.h>
+#include <string.h>
+
 #include <optional>
 #include <string>
 #include <unordered_map>
@@ -179,6 +182,7 @@ private:
   static RetT parse_int(const IdentT& id, const std::string& text, IntFormat format) {
     int64_t v;
     char* conversion_end;
+    errno = 0;
     switch (format) {
       case IntFormat::DEFAULT:
         v = strtoull(text.c_str(), &conversion_end, 0);
@@ -212,6 +216,15 @@ private:
     }
 
     uint64_t uv = static_cast<uint64_t>(v);
+    // strtoull saturates on overflow and negates (modulo 2^64) after a minus
+    // sign; a value that wrapped into the other sign's range must not pass the
+    // mask checks below as if it were small
+    bool negative = (strchr(text.c_str(), '-') != nullptr);
+    if ((errno == ERANGE) ||
+        (negative && (uv != 0) && !(uv & 0x8000000000000000ULL)) ||
+        (!negative && std::is_signed_v<RetT> && (uv & 0x8000000000000000ULL))) {
+      throw std::invalid_argument(exc_prefix(id) + "value out of range");
+    }
     if (std::is_unsigned_v<RetT>) {
       if (uv & (~mask_for_type<RetT>)) {
         throw std::invalid_argument(exc_prefix(id) + "unsigned value out of range");
